@@ -7,5 +7,6 @@ CONSTANTS
   Horizon = 6
   PerConn = TRUE
   NoWait = FALSE
+  MaxWait = 0
 INVARIANT RateBound
 CHECK_DEADLOCK FALSE
